@@ -25,6 +25,7 @@ from typing import Any, Callable, Iterable, Optional
 VERIF = Path(__file__).resolve().parents[2]
 LEAN = VERIF / "lean"
 REPO = Path(os.environ.get("OPERON_REPO", "/repo")).resolve()
+OUT = Path(os.environ.get("VERIF_OUT", str(VERIF))).resolve()   # evidence/ and replays/ go here (scratch runs)
 ALLOWED_AXIOMS = {"propext", "Classical.choice", "Quot.sound"}
 FORBIDDEN = ["sorry", "admit", "native_decide", "bv_decide", "implemented_by", "unsafe ", "maxHeartbeats 0",
              "ofReduceBool", "reduceBool"]
@@ -171,6 +172,7 @@ class LeanReport:
     broken: list = field(default_factory=list)     # names of obligations that no longer check
     examples: int = 0
     wall_s: float = 0.0
+    pre_result: Any = None
 
     @property
     def obligations(self):
@@ -181,8 +183,9 @@ class LeanReport:
         return sum(1 for t in self.theorems if t.get("ok"))
 
 
-def lean_check(prop_id: str, extra_targets: Iterable[str] = ()) -> LeanReport:
-    """Build the property's theorems, audit their axioms, scan for forbidden tokens."""
+def lean_check(prop_id: str, extra_targets: Iterable[str] = (), pre: Callable[[], Any] = None) -> LeanReport:
+    """Build the property's theorems, audit their axioms, scan for forbidden tokens.
+    `pre` (the extractors, which rewrite Operon/Gen) runs under the same lock as the build."""
     t0 = time.time()
     rep = LeanReport()
     mod = f"Operon.Props.{prop_id}"
@@ -192,6 +195,8 @@ def lean_check(prop_id: str, extra_targets: Iterable[str] = ()) -> LeanReport:
         raise Infra(f"missing {lean_module_path(mod)}")
     thms = theorem_names(mod)
     with _Lock(LEAN / ".build.lock"):
+        if pre is not None:
+            rep.pre_result = pre()
         try:
             rc, out, err = _run(["lake", "build"] + targets, cwd=LEAN, timeout=3000)
         except FileNotFoundError:
@@ -495,7 +500,7 @@ class Runner:
         return dict(case, lines=head + ops, note=case.get("note", "") + " (shrunk)")
 
     def write_replay(self, kind: str, r: Optional[dict], lean: LeanReport, found: bool, extra: dict = None) -> str:
-        d = VERIF / "replays"
+        d = OUT / "replays"
         d.mkdir(exist_ok=True)
         self.replay_n += 1
         path = d / f"{self.p.id}-{self.seed}-{self.tier}-{self.replay_n}.json"
@@ -510,19 +515,19 @@ class Runner:
             "broken": {"theorems": lean.broken, "forbidden": lean.forbidden,
                        "build_log_tail": lean.build_log[-2500:] if not lean.ok else "",
                        "correspondence_lines": r.get("diff") if r else None},
-            "replay_cmd": f"./check {self.p.id} --replay {path.relative_to(VERIF)}",
+            "replay_cmd": f"./check {self.p.id} --replay {(path.relative_to(VERIF) if str(path).startswith(str(VERIF)) else path)}",
         }
         if extra:
             body.update(extra)
         path.write_text(json.dumps(body, indent=1, default=str))
-        return str(path.relative_to(VERIF))
+        return str((path.relative_to(VERIF) if str(path).startswith(str(VERIF)) else path))
 
     # -------------------------------------------------------------------------------------------------
     def main(self) -> int:
         p = self.p
         p.setup(self)
-        extractors = p.extract(self) or []
-        lean = lean_check(p.id)
+        lean = lean_check(p.id, pre=lambda: p.extract(self))
+        extractors = lean.pre_result or []
         findings = load_known_findings(p.id)
         open_ids = {f["id"] for f in findings if f.get("status") == "open"}
         budget = p.quick_budget if self.tier == "quick" else p.thorough_budget
@@ -696,7 +701,7 @@ class Runner:
             "wall_s": round(wall, 2),
             "violations": 1 if exit_code == 1 else 0,
         }
-        ev = VERIF / "evidence"
+        ev = OUT / "evidence"
         ev.mkdir(exist_ok=True)
         (ev / f"{p.id}.json").write_text(json.dumps(evidence, indent=1, default=str))
         for l in out_lines:
@@ -724,6 +729,12 @@ class Runner:
             print(f"  {i:3d} {l}\n      impl : {a}\n      model: {b}")
         for v in r["viol"]:
             print("  ORACLE:", json.dumps(v.to_json()))
+        open_ids = {f["id"] for f in load_known_findings(p.id) if f.get("status") == "open"}
+        fid = p.trigger(case)
+        if r["viol"] and fid in open_ids and not r["diff"]:
+            print(f"KNOWN-FINDING: property={p.id} {fid} (replayed history lies inside the finding's trigger and the "
+                  f"implementation behaves as the proven model of the defect)")
+            return 0
         if r["viol"] or r["diff"]:
             print(f"VIOLATION property={p.id} replay={path}" + ("" if r["viol"] else " no-failing-input-found"))
             return 1
